@@ -80,6 +80,12 @@ def _safety_tables(ctx, prog):
             outs = I.run(b.path, [('refval', pairs, ())])
             got = [((k[0], k[1]), v.lo) for k, v in log if isinstance(k, tuple) and len(k) == 2 and isinstance(v, Iv)]
             want = [((a, c), v.lo) for (a, c), v in pairs]
+            if len(outs) == 1 and outs[0].ret != Sym('map') and not log:
+                # the table collected from an iterator of (pair, value) items
+                r = outs[0].ret
+                if isinstance(r, tuple) and all(isinstance(x, tuple) and len(x) == 2 for x in r):
+                    got = [((k[0], k[1]), v.lo) for k, v in r if isinstance(k, tuple) and len(k) == 2 and isinstance(v, Iv)]
+                    outs[0].ret = Sym('map')
             ok = len(outs) == 1 and outs[0].ret == Sym('map') and sorted(got) == sorted(want)
             ctx.check(ok, 'R10.9', 'distances', b.where(0), b.path, 'every (pair, value) given must be filed under that pair: filed %s' % got, found=str(got), expected=str(want), detail='by interpretation')
         except (absint.Unsupported, absint.Undecided):
@@ -95,8 +101,14 @@ def _safety_tables(ctx, prog):
                 vals = dict(zip(rv['kind'].get('fields') or [], t[2:]))
                 env, rob = util.const_val(vals.get('to_environment')), util.const_val(vals.get('to_robot_default'))
                 sp = strip(vals.get('special_distances'))
-                ok = tv is not None and env == tv and rob == tv and util.is_param(vals.get('mode'), 1) and isinstance(sp, tuple) and sp[0] == 'call' and \
-                    cname(sp[1]).split('::')[-1] in ('new', 'default', 'with_capacity')
+                empty = isinstance(sp, tuple) and sp[0] == 'call' and cname(sp[1]).split('::')[-1] in ('new', 'default', 'with_capacity')
+                if not empty and isinstance(sp, tuple) and sp[0] == 'call' and sp[1].endswith('collisions::SafetyDistances::distances') and len(sp) == 3:
+                    # the table helper (checked above to file exactly the pairs it is given) applied to no pairs
+                    a = strip(sp[2])
+                    while isinstance(a, tuple) and a[0] in ('ref', 'cast'):
+                        a = strip(a[1])
+                    empty = a == ('agg', 'array') or (isinstance(a, tuple) and a[0] == 'const' and str(a[1]).endswith('; 0]'))
+                ok = tv is not None and env == tv and rob == tv and util.is_param(vals.get('mode'), 1) and empty
                 ctx.check(ok, 'R10.9', 'standard', b.where(i, j), b.path,
                           'the standard table must be touch-only (TOUCH_ONLY) towards the environment and within the robot, without special pairs, in the mode given',
                           found='to_environment=%s to_robot_default=%s special=%s mode=%s' % (env, rob, show(sp, maxdepth=2), show(vals.get('mode'), maxdepth=2)))
@@ -117,12 +129,20 @@ def _query_inputs(ctx, prog):
         jp = [k for k in range(1, b.arg_count + 1) if '[f64; 6]' in b.local_ty(k)]
         kp = [k for k in range(1, b.arg_count + 1) if 'dyn' in b.local_ty(k) and 'Kinematics' in b.local_ty(k)]
         dets = [(bi2, t2) for bi2, t2 in b.calls() if cname(callee_name(t2)).startswith('RobotBody::detect')]
-        ok = len(jp) == 1 and len(kp) == 1 and len(dets) == 1
+        pose_terms = [b.op_term(t2['args'][1], (bi2, None)) for bi2, t2 in dets]
+        if not dets:
+            # the enumeration is reached through a helper of the body: read from what the query returns, helpers written out
+            is_det = lambda pth: cname(pth).startswith('RobotBody::detect')
+            for rv_, d_, rb_ in b.return_values():
+                for y in mir.subterms(util.inline_calls(prog, rv_, depth=3, stop=is_det), lambda y: y[0] == 'call' and is_det(y[1]) and len(y) > 3):
+                    if strip(y[3]) not in [strip(x) for x in pose_terms]:
+                        pose_terms.append(y[3])
+        ok = len(jp) == 1 and len(kp) == 1 and len(pose_terms) == 1
         found = None
         fk = []
         if ok:
             # the poses handed to the enumeration, helpers written out: array::map(kinematics.forward_with_joint_poses(joints), |p| p.cast())
-            poses = strip(util.inline_calls(prog, b.op_term(dets[0][1]['args'][1], (dets[0][0], None)), depth=3))
+            poses = strip(util.inline_calls(prog, pose_terms[0], depth=3))
             ms = [poses] if isinstance(poses, tuple) and poses[0] == 'call' and cname(poses[1]) == 'array::map' else \
                 mir.subterms(poses, lambda y: y[0] == 'call' and cname(y[1]) == 'array::map')
             good = False
@@ -579,6 +599,14 @@ def _decision(ctx, prog):
             else:
                 pair_sites.append(False)
     ok = bool(pair_sites) and all(pair_sites)
+    if not ok:
+        # the pair is not put together in this body in one of the shapes read above (a closure, a helper): the whole decision,
+        # the reported pair included, is decided by interpretation when that is possible
+        try:
+            _decision_by_interpretation(ctx, prog, b)
+            return b
+        except MachineryError:
+            pass
     ctx.check(ok, 'R10.4', 'decision/report', b.where(0), b.path, 'the reported pair must be (min(i,j), max(i,j))')
     # constants
     consts = {}
@@ -711,7 +739,7 @@ def _dispatch(ctx, prog, enum_b, dec):
     rvs = cb.return_values()
     kinds = set()
     for t, d, rb in rvs:
-        t = strip(t)
+        t = strip(util.inline_calls(prog, t, depth=2, stop=lambda pth: cname(pth).startswith('RobotBody::detect')))
         g = [(show(x, maxdepth=5), opw.truth(k)) for x, k, sw in cb.guard_terms(d[1])]
         if util.const_val(t) in (0, False) and any('NoCheck' in s and v is True for s, v in g):
             kinds.add('nocheck-false')
